@@ -21,7 +21,7 @@ TIERS = {
 RULE = ('each run = K in {2,3,4} actor threads, each with 1..4 seeded public-API calls (parse_message/segment/field/'
         'component, datatype_factory, Message building; all 12 versions, both levels, 4 delimiter sets, valid and '
         'invalid leaves) under a seeded line-level schedule with touch-point bias; oracle = outcome of the same call '
-        'run alone in the same process + digest of process-global objects; a run is non-trivial when at least one '
+        'run alone in the same process + digest of process-global objects (a call that never returns, e.g. on a leaked lock, is a violation); a run is non-trivial when at least one '
         'pre-emption landed inside hl7apy code while >= 2 actors were live; distinct = distinct SHA-1 of the event log '
         '(which includes every context switch position)')
 
@@ -30,13 +30,15 @@ ASSUMPTIONS = [
     'every run executes in a fresh fork of a process that imported and instrumented hl7apy but never called it, and in half of the runs the concurrent phase precedes the sequential reference pass, so first-call / lazy-cache races are met cold',
     'racing first imports of a version library are explored in the cold-import sweep blocks only (the library is forgotten, its module-level lines become switch points, CPython\'s per-module import lock is made baton-aware); elsewhere version modules are imported before the run',
     'the wall clock is frozen (MSH-7 is a constant), so "the same call run alone" is well defined',
-    'global-state digest covers defaults, delimiter dicts, BASE_DATATYPES maps, class-level child_classes/cls_attrs; the structure tables are checked for identity, not content',
+    'global-state digest covers defaults, delimiter dicts, BASE_DATATYPES maps, class-level child_classes/cls_attrs, and the content of the structure tables of the versions a run works with; memos a changed tree may add are not digested (a memo may legitimately change) -- they are exercised by the memo-pressure programs instead',
+    'run-index blocks of 128: enumerated switches in state-owning code (every fourth program a memo-pressure program), fractional / lookup-layer switches of actor 0 (every third program encodes values sharing one caller-owned list of highlight ranges), cold-import switches, seeded random schedules',
 ]
 
 COMPONENTS = {
     'real': ['hl7apy.parser', 'hl7apy.core', 'hl7apy.factories', 'hl7apy.base_datatypes', 'hl7apy.validation',
              'hl7apy.v2_* lookup functions and tables'],
-    'stub': ['thread scheduling (baton-passed real threads)', 'wall clock (frozen)'],
+    'stub': ['thread scheduling (baton-passed real threads)', 'wall clock (frozen)',
+             'threading.Lock / RLock objects created by hl7apy modules (baton-aware replacements; the pinned tree creates none)'],
 }
 
 
